@@ -305,6 +305,10 @@ pub fn run(ctx: &mut Ctx) {
                 Live { bytes: refcodec::encode(&t), tree: t }
             })
             .collect();
+        if ctx.case_no % 97 == 5 && !ctx.miri {
+            let t = gen::big_doc(&mut rng, false);
+            pool.push(Live { bytes: refcodec::encode(&t), tree: t });
+        }
         let steps = rng.below(46) + 5;
         let mut history: Vec<String> = Vec::new();
         for step in 0..steps {
@@ -328,7 +332,7 @@ pub fn run(ctx: &mut Ctx) {
                     }
                     // feed back: the library's bytes when they were right, the reference encoding otherwise
                     let live = if ok { Live { bytes, tree } } else { Live { bytes: refcodec::encode(&tree), tree } };
-                    if live.bytes.len() < 4096 {
+                    if live.bytes.len() < 400_000 {
                         let slot = rng.below(pool.len());
                         if pool.len() < 8 && rng.bool() {
                             pool.push(live);
